@@ -5,6 +5,7 @@
 // Protocol and encodings of <ty> / <dval>: see /verif/coq/theories/Extract/Driver_typed.v.
 //   pt <cfg> <src> <ty> <hex>        seed.deserialize(&mut de) + de.end()      src: s | b | r<k> | rx<seed>
 //   pm <cfg> <src> <ty> <hex>        as pt, errors followed by the hex of the message text (implementation-only comparisons)
+//   ptk <cfg> <src> <ty> <n> <hex>   StreamDeserializer over items of type <ty>: n calls of next(), each with byte_offset()
 //   dv <cfg> <src> <shape> <hex>     the derive-based type number <shape> on the same input, printed as a dval
 //   rt <cfg> <ty> <dval>             serialize (6 writer/formatter pairs) then read back (str, slice, readers)
 //   fv <cfg> <ty> <hex>              from_str::<Value>(text), then the seed on the Value (owned and by reference)
@@ -941,6 +942,42 @@ fn run_src(cfg: &str, src: &str, ty: &'static Ty, data: &[u8]) -> Option<Result<
     })
 }
 
+// ------------------------------------------------------------------------------------------------ streams of typed items
+// StreamDeserializer wants `T: Deserialize`: the item type runs the universal seed for the type program of the current case.
+thread_local! {
+    static CURRENT_TY: std::cell::Cell<Option<&'static Ty>> = std::cell::Cell::new(None);
+}
+struct Dyn(DVal);
+impl<'de> Deserialize<'de> for Dyn {
+    fn deserialize<D: Deserializer<'de>>(d: D) -> Result<Dyn, D::Error> {
+        let ty = CURRENT_TY.with(|c| c.get()).expect("current type");
+        Seed(ty).deserialize(d).map(Dyn)
+    }
+}
+
+fn show_terr_item(e: &serde_json::Error) -> String {
+    if e.is_io() {
+        let k = e.io_error_kind().map(kind_id).unwrap_or(0);
+        return format!("EIo/io/{}", k);
+    }
+    let cls = if e.is_data() { msg_class(e) } else { "-" };
+    format!("E{}/{}/{}/{}/{}", code_name(e), cat_name(e), e.line(), e.column(), cls)
+}
+
+fn stream_hist<'de, R: JRead<'de>>(read: R, n: usize) -> String {
+    let mut st = serde_json::Deserializer::new(read).into_iter::<Dyn>();
+    let mut parts = vec![];
+    for _ in 0..n {
+        let s = match st.next() {
+            None => "N".to_string(),
+            Some(Ok(v)) => format!("V{}", dval_text(&v.0)),
+            Some(Err(e)) => show_terr_item(&e),
+        };
+        parts.push(format!("{}@{}", s, st.byte_offset()));
+    }
+    parts.join(" ")
+}
+
 // ------------------------------------------------------------------------------------------------ derive-based types
 #[derive(Deserialize)]
 struct S0 { a: Option<i8>, b: String }
@@ -1154,6 +1191,23 @@ fn dispatch(f: &[&str]) -> String {
                 run_derive(serde_json::de::IoRead::new(ChunkReader::from_spec(&data, src)), shape)
             };
             show_tres(r)
+        }
+        "ptk" if f.len() == 6 => {
+            let ty = match parse_ty(f[3]) { Some(t) => t, None => return "BADCASE".into() };
+            let n: usize = f[4].parse().unwrap_or(1);
+            let data = match unhex(f[5]) { Some(d) => d, None => return "BADCASE".into() };
+            if ty_has_raw(ty) && !cfg!(feature = "raw_value") {
+                return "SKIP".into();
+            }
+            CURRENT_TY.with(|c| c.set(Some(ty)));
+            let src = f[2];
+            if src.starts_with('s') {
+                match std::str::from_utf8(&data) { Ok(s) => stream_hist(serde_json::de::StrRead::new(s), n), Err(_) => "SKIP".into() }
+            } else if src.starts_with('b') {
+                stream_hist(serde_json::de::SliceRead::new(&data), n)
+            } else {
+                stream_hist(serde_json::de::IoRead::new(ChunkReader::from_spec(&data, src)), n)
+            }
         }
         "shapes" => SHAPES.join(" "),
         "rt" if f.len() == 4 => {
